@@ -26,6 +26,9 @@ V20 = {"version": 2.0, "uid_order": "asc"}
 V21 = {"version": 2.1, "uid_order": "asc"}
 V20D = {"version": 2.0, "uid_order": "desc"}
 V21D = {"version": 2.1, "uid_order": "desc"}
+# the history is the body of a `with workspace:` block left through an exception
+V20X = {"version": 2.0, "uid_order": "asc", "close_by": "raise"}
+V21X = {"version": 2.1, "uid_order": "asc", "close_by": "raise"}
 
 BASE = {
     "ops": ["add_hole", "add", "update", "rm_data", "rm_group", "rm_hole", "reopen"],
@@ -41,9 +44,9 @@ ALPHAS = {
     "BUILD": BASE,
     # everything, small argument domains
     "FULL": dict(BASE, ops=["add_hole", "copy_hole", "add", "update", "resurvey", "rename_hole", "rename_data", "rm_data", "rm_group",
-                            "rm_hole", "copy", "reopen"], groups=("G", "H"), lens={"depth": (2,), "interval": (1,)}, holes=("A", "B", "C")),
+                            "rm_protected", "rm_hole", "copy", "reopen"], groups=("G", "H"), lens={"depth": (2,), "interval": (1,)}, holes=("A", "B", "C")),
     # edits of an existing scene
-    "EDIT": dict(BASE, ops=["add", "update", "resurvey", "rename_hole", "rm_data", "rm_group", "rm_hole", "reopen"], groups=("G", "H"),
+    "EDIT": dict(BASE, ops=["add", "update", "resurvey", "rename_hole", "rm_data", "rm_group", "rm_protected", "rm_hole", "reopen"], groups=("G", "H"),
                  lens={"depth": (3,), "interval": (2,)}, holes=("A", "B", "C")),
     # removal then re-adding longer / shorter under the same name
     "READD": dict(BASE, ops=["add", "rm_data", "rm_group", "reopen"], groups=("G", "H"), lens={"depth": (0, 1, 3), "interval": (1, 2)},
@@ -62,7 +65,7 @@ ALPHAS = {
 QUICK = [
     ("S0", V20, 4, "BUILD"),
     ("S2", V21, 2, "FULL"),
-    ("S3", V20, 2, "EDIT"),
+    ("S3", V20X, 2, "EDIT"),
     ("S1", V20D, 3, "HOLES"),
     ("S2r", V20, 2, "COPY"),
     ("S5", V21, 2, "TABLES"),
@@ -70,17 +73,16 @@ QUICK = [
 ]
 THOROUGH = [
     ("S0", V21D, 5, "BUILD"),
+    ("S0", V20X, 4, "BUILD"),
     ("S2", V20, 2, "FULL"),
-    ("S3r", V21D, 2, "FULL"),
-    ("S3r", V21, 2, "EDIT"),
+    ("S3r", V21X, 2, "EDIT"),
     ("S3", V21, 3, "READD"),
-    ("S6r", V20D, 3, "READD"),
+    ("S6r", V20D, 2, "READD"),
     ("S1", V20, 4, "HOLES"),
-    ("S1r", V21D, 4, "HOLES"),
+    ("S1r", V21D, 3, "HOLES"),
     ("S2", V20, 3, "COPY"),
-    ("S2r", V21, 3, "COPY"),
+    ("S2r", V21X, 3, "COPY"),
     ("S5", V20, 3, "TABLES"),
-    ("S4r", V21, 3, "TABLES"),
 ]
 
 
@@ -183,6 +185,8 @@ def run(ctx):
         "order of holes inside a table and order of rows inside an index are not compared (statement silent); the rows of one hole must be contiguous",
         "a state whose live objects no longer show the model (known findings D2, D3) is continued only through a re-open; nothing is explored after "
         "rename_data (known finding D1) nor after a group copy that was already wrong when made",
+        "rm_protected (workspace.remove_entity on the library-protected DEPTH / FROM data) must leave the model's state: the reference keeps the data",
+        "cfg close_by=raise: every close of that run is `with workspace: raise` (exit of a with-block through an exception)",
         "after a group copy, operations go on on the source only; the copy must keep equal to the state it was copied from",
         "table-view is judged only where the per-hole reading of the same observer holds; file-content only where the file structure holds",
     ]
